@@ -269,3 +269,31 @@ class SelectMoreThanListed(Contract):
 
     def clauses(self, P, ctx, case):
         return ACCEPTED()
+
+
+@register
+class ObjectiveWithoutWeight(Contract):
+    """an objective is well-formed without a weight (documented default 1), whichever class declares it"""
+
+    target = "objective.Objective.__init__"
+    inlines = ("objective.ObjectiveMinimizeIndicator.__init__", "objective.ObjectiveMaximizeIndicator.__init__")
+    props = ("C18",)
+
+    def cases(self, tier):
+        return [dict(cls=c) for c in ("Objective", "ObjectiveMinimizeIndicator", "ObjectiveMaximizeIndicator")]
+
+    def scenario(self, ps, P, case):
+        pb = ps.SchedulingProblem(name="pb", horizon=10)
+        t = ps.FixedDurationTask(name="t", duration=1)
+        ind = ps.IndicatorFromMathExpression(name="i", expression=t._start)
+        if case["cls"] == "Objective":
+            o = ps.Objective(name="o", target=ind, kind="minimize")
+        else:
+            o = getattr(ps, case["cls"])(target=ind)
+        return dict(o=o)
+
+    def raises(self, P, case):
+        return []
+
+    def clauses(self, P, ctx, case):
+        return [Clause("state[accepted, with weight 1]", T(ctx["o"].weight) == 1, props=("C18",), kind="state")]
